@@ -77,6 +77,7 @@ type eCase struct {
 	preferAsm    bool // generator hint: serve through the assembler more often
 	preferLp     bool // generator hint: also serve with a long-lived engine that has a persister
 	preferShadow bool // generator hint: serve with a shadow session
+	preferStatic bool // generator hint: with DbResource, store fixed-content symbols under STATICLOAD
 }
 
 func (c *eCase) opt(k string) bool { return c.opts != nil && c.opts[k] }
